@@ -331,7 +331,11 @@ def finish(prop, tier, seed, mod, results, wall):
     for r in results:
         expect = None
         if r['verdict'] == 'violated':
+            seen_kinds = set()
             for f in r['fail']:
+                if f['kind'] in seen_kinds:
+                    continue
+                seen_kinds.add(f['kind'])
                 k = match_known(known, prop, r['oid'], f['kind'])
                 if k is not None:
                     n_known += 1
